@@ -4,6 +4,7 @@ CONSTANTS
   N = 3
   Cap = 16
   Kinds <- KindsDDV
+  Script <- ScriptNone
   GenK = 1
 VIEW View
 INVARIANT Inv_NoLostWake
